@@ -11,20 +11,29 @@ MaxOf(dt) == IF dt = "u8" THEN 255 ELSE 65535
 IsU(dt) == dt \in {"u8", "u16"}
 Shape4(c) == <<c.shape[1], c.shape[2], c.shape[3], IF c.shape[4] = 0 THEN 1 ELSE c.shape[4]>>
 FileDt(c) == IF c.fdarg = "same" THEN c.sd ELSE c.fdarg
+\* extreme-value cases ("hi" = 1): the array holds MAX - k (unsigned: saturated voxels) or 1, 507/510, 505/510, ... (float: the top of the unit interval)
+HiOf(c) == IF "hi" \in DOMAIN c THEN c.hi ELSE 0
+Val(k, sd, hi) == IF IsU(sd) THEN (IF hi = 1 THEN <<MaxOf(sd) - k, 1>> ELSE <<k, 1>>)
+                  ELSE IF hi = 1 THEN (IF k = 0 THEN <<1, 1>> ELSE <<509 - 2 * k, 510>>)
+                  ELSE <<2 * k + 1, 510>>
 \* value in the file, as a rational <<num, den>>
-FileVal(k, sd, fd) == IF IsU(sd) /\ IsU(fd) THEN <<k, 1>>
-                      ELSE IF IsU(sd) THEN <<k, MaxOf(sd)>>                                        \* unsigned -> float: v / MAX
-                      ELSE IF IsU(fd) THEN <<((2 * k + 1) * MaxOf(fd)) \div 510, 1>>                \* float -> unsigned: floor(v * MAX)
-                      ELSE <<2 * k + 1, 510>>
+FileVal(v, sd, fd) == IF IsU(sd) /\ IsU(fd) THEN v
+                      ELSE IF IsU(sd) THEN <<v[1], v[2] * MaxOf(sd)>>                               \* unsigned -> float: v / MAX
+                      ELSE IF IsU(fd) THEN <<(v[1] * MaxOf(fd)) \div v[2], 1>>                      \* float -> unsigned: floor(v * MAX)
+                      ELSE v
 LoadVal(f, fd, ld) == IF IsU(fd) = IsU(ld) THEN f
                       ELSE IF IsU(fd) THEN <<f[1], f[2] * MaxOf(fd)>>                              \* v / MAX
+                      ELSE IF f[2] = MaxOf(ld) THEN <<f[1], 1>>                                     \* (kept within 32 bits)
                       ELSE <<(f[1] * MaxOf(ld)) \div f[2], 1>>                                      \* floor(v * MAX)
 \* k / MAX stored in floating point and multiplied back may land just below the integer: one unit of slack on that path only
 Slack(sd, fd, ld) == IF IsU(sd) /\ ~IsU(fd) /\ IsU(ld) THEN 1 ELSE 0
+\* a half-precision file or load carries 11 significant bits: values in [0, 1] are off by at most 2^-11 per conversion
+Half(fd, ld) == fd = "f16" \/ ld = "f16"
 WhyIO(c, o) ==
     LET sh == Shape4(c)  fd == FileDt(c)
-        ok(k, v) == LET e == LoadVal(FileVal(k, c.sd, fd), fd, c.ld) IN
-                    IF IsU(c.ld) THEN AbsI(v - e[1] \div e[2]) <= Slack(c.sd, fd, c.ld) ELSE AbsI(v * e[2] - e[1] * 10000) <= 2 * e[2] IN
+        ok(k, v) == LET e == LoadVal(FileVal(Val(k, c.sd, HiOf(c)), c.sd, fd), fd, c.ld) IN
+                    IF IsU(c.ld) THEN AbsI(v - e[1] \div e[2]) <= Slack(c.sd, fd, c.ld) + (IF Half(fd, c.ld) THEN MaxOf(c.ld) \div 1024 + 1 ELSE 0)
+                    ELSE AbsI(v * e[2] - e[1] * 10000) <= (IF Half(fd, c.ld) THEN 12 ELSE 2) * e[2] IN
     IF o.shape # sh THEN "io-shape"
     ELSE IF \E idx \in Indices(sh) : ~ok(Code(idx, sh), o.vals[idx[1] + 1][idx[2] + 1][idx[3] + 1][idx[4] + 1]) THEN "io-values-" \o c.sd \o "-" \o fd \o "-" \o c.ld
     ELSE ""
